@@ -16,6 +16,24 @@ def sh(cmd, **kw):
     return p.returncode, p.stdout
 
 
+def merge_results(rp, results):
+    """read-update-write of the shared results file under a lock, written atomically (several owners run this tool at once)"""
+    import fcntl
+    with open(rp + ".lock", "w") as lk:
+        fcntl.flock(lk, fcntl.LOCK_EX)
+        old = {}
+        if os.path.exists(rp):
+            try:
+                old = json.load(open(rp))
+            except ValueError:
+                old = {}
+        old.update(results)
+        tmp = rp + ".tmp%d" % os.getpid()
+        with open(tmp, "w") as f:
+            json.dump(old, f, indent=1, sort_keys=True)
+        os.replace(tmp, rp)
+
+
 def main():
     ids = sys.argv[1:] or sorted(d for d in os.listdir(REF) if os.path.isdir(os.path.join(REF, d)))
     results = {}
@@ -43,9 +61,7 @@ def main():
             sh(["git", "-C", "/repo", "worktree", "remove", "--force", wt])
             shutil.rmtree(wt, ignore_errors=True)
     rp = os.path.join(REF, "RESULTS.json")
-    old = json.load(open(rp)) if os.path.exists(rp) else {}
-    old.update(results)
-    json.dump(old, open(rp, "w"), indent=1, sort_keys=True)
+    merge_results(rp, results)
     for rid, r in sorted(results.items()):
         if "error" in r:
             print("%-12s %-4s ERROR %s" % (rid, r["property"], r["error"]))
